@@ -95,7 +95,14 @@ static void ev_enc(int c, const unsigned char *in, int n, int cap)
 	printf("}\n");
 }
 
+/* logn = how much of the text the event shows: all of it, or - for a text with a NUL inside - the part in front of the
+   NUL (the decoders' contract: decoding stops early when the text contains a NUL, whatever lies behind it) */
+static void ev_dec2(int c, const unsigned char *text, int tn, int logn, int cap);
 static void ev_dec(int c, const unsigned char *text, int tn, int cap)
+{
+	ev_dec2(c, text, tn, tn, cap);
+}
+static void ev_dec2(int c, const unsigned char *text, int tn, int logn, int cap)
 {
 	unsigned char *buf = gbuf + GUARD;
 	int ret, i, g = 1;
@@ -103,6 +110,7 @@ static void ev_dec(int c, const unsigned char *text, int tn, int cap)
 		return;
 	memset(gbuf, 0xEE, GUARD + cap + 1 + GUARD);
 	ret = do_dec(c, text, tn, buf, cap);
+	tn = logn;
 	for (i = 0; i < GUARD; i++)
 		if (gbuf[i] != 0xEE || buf[cap + 1 + i] != 0xEE)
 			g = 0;
@@ -244,6 +252,16 @@ int main(int argc, char **argv)
 				}
 				ev_dec(c, text, tn, (int) (rnd() % (tn + 2)));
 				ev_dec(c, text, tn, tn + 2);
+				if (tn >= 3 && i % 3 == 0) {
+					/* a NUL inside the text (a shorter text written over a longer one): at every position class -
+					   block boundary, inside a block, right at the start - with junk behind it */
+					int z = (i % 9 == 0) ? (int) (rnd() % 3) * 4 % tn : (i % 9 == 3) ? (int) (rnd() % (unsigned) tn) / 8 * 8 % tn : (int) (rnd() % (unsigned) tn);
+					unsigned char keep = text[z];
+					text[z] = 0;
+					ev_dec2(c, text, tn, z, tn + 2);
+					ev_dec2(c, text, tn, z, z > 0 ? (int) (rnd() % (unsigned) (z + 1)) : 0);
+					text[z] = keep;
+				}
 			}
 	}
 	return 0;
